@@ -312,14 +312,41 @@ pub fn run_scenario(kind: &str, sc: &Scenario, ev: &Evaluator, rep: &mut Report)
 }
 
 /// game-like chain: search, play the reported move, search again on the same memory
-fn chain(rng: &mut gen::R, corpus: &[Pos], ev: &Evaluator, rep: &mut Report) {
-    let (tables, buckets) = random_geometry(rng);
+/// `contention`: one shard of 2-8 buckets (saturated at once), small endings, alternately a search with 4-8 workers
+/// whose table accesses are delayed with high probability (stores of the root and its successors linger while
+/// other workers refresh or displace them) and a one-worker search of the position two plies later.
+fn chain(rng: &mut gen::R, corpus: &[Pos], ev: &Evaluator, rep: &mut Report, contention: bool) {
+    let (tables, buckets) = if contention { (1, [2usize, 4, 4, 8][rng.gen_range(0..4)]) } else { random_geometry(rng) };
     let mut sc = Scenario { tables, buckets, hasher_seed: rng.gen(), steps: vec![] };
-    let mut p = random_root(rng, corpus);
+    let mut p = if contention {
+        loop {
+            let q = gen::sample(rng);
+            if q.men() <= 6 && !q.legal_moves().is_empty() && q.imbalance() < 60.0 {
+                break q;
+            }
+        }
+    } else {
+        random_root(rng, corpus)
+    };
+    if contention {
+        // a filler search saturates the memory first
+        let f = random_root(rng, corpus);
+        sc.steps.push(Step::new(&f.fen(), 2, 1, rng.gen()));
+        rep.count("contention_chains", 1);
+    }
     let n = rng.gen_range(3..10);
     // the scenario is re-run from the start for each added step (keeps replay exact and simple)
     for _ in 0..n {
-        sc.steps.push(Step::new(&p.fen(), pick_depth(rng, p.men()).min(3), *WORKERS.choose(rng).unwrap(), rng.gen()));
+        if contention {
+            let many = sc.steps.len() % 2 == 1;
+            let mut st = Step::new(&p.fen(), if many { 3 } else { rng.gen_range(1..=2) }, if many { rng.gen_range(4..=8) } else { 1 }, rng.gen());
+            if many {
+                st.delay = Some((rng.gen(), [8192u64, 30000, 50000][rng.gen_range(0..3)]));
+            }
+            sc.steps.push(st);
+        } else {
+            sc.steps.push(Step::new(&p.fen(), pick_depth(rng, p.men()).min(3), *WORKERS.choose(rng).unwrap(), rng.gen()));
+        }
         let mut last_line = None;
         let mut ok = true;
         let k = sc.steps.len() - 1;
@@ -450,13 +477,17 @@ pub fn run(ctx: &Ctx, rep: &mut Report) {
         return;
     }
     let mut n = ctx.n(18_000, 1_000_000);
-    let kinds = ["single", "related", "rights", "rights", "ep", "ep", "jumps", "interrupted", "schedule", "schedule", "chain", "related", "backward", "backward"];
+    let mut kinds = vec!["single", "related", "rights", "rights", "ep", "ep", "jumps", "interrupted", "schedule", "schedule", "chain", "related", "backward", "backward", "contention", "contention", "contention"];
+    if let Ok(only) = std::env::var("VERIF_C03_KIND") {
+        // experiments: one kind only
+        kinds.retain(|k| *k == only);
+    }
     let mut k = 0usize;
     while n > 0 && ctx.time_left() {
         let kind = kinds[k % kinds.len()];
         k += 1;
-        if kind == "chain" {
-            chain(&mut rng, &corpus, &ev, rep);
+        if kind == "chain" || kind == "contention" {
+            chain(&mut rng, &corpus, &ev, rep, kind == "contention");
             n = n.saturating_sub(5);
             continue;
         }
